@@ -75,7 +75,7 @@ INVARIANT EmitInv
 '''
 
 
-def make(rows, weighted, threads):
+def make(rows, weighted, threads, weight_key='weight', loglike_key='log_like'):
     import pandas as pd
     import biogeme.biogeme as bio
     import biogeme.database as db
@@ -86,7 +86,7 @@ def make(rows, weighted, threads):
     b1 = ex.Beta('b1', 0, None, None, 0)
     b2 = ex.Beta('b2', 0, None, None, 0)
     ll = b1 * ex.Variable('x') + b2 * ex.Variable('z') + b1 * b2
-    formulas = {'log_like': ll, 'weight': ex.Variable('w')} if weighted else {'log_like': ll}
+    formulas = {loglike_key: ll, weight_key: ex.Variable('w')} if weighted else {loglike_key: ll}
     b = bio.BIOGEME(d, formulas, number_of_threads=threads)
     b.generate_html = False
     b.generate_pickle = False
@@ -117,7 +117,10 @@ def replay(args):
         key = 'weighted' if weighted else 'plain'
         for threads in list(range(1, n_rows + 3)) + [0]:
             boundary.reset()
-            b, d, ll = make(rows, weighted, threads)
+            # both documented spellings of the formula names are used
+            wkey = 'weight' if (threads + n_rows) % 2 == 0 else 'weights'
+            lkey = 'log_like' if threads % 3 != 2 else 'loglike'
+            b, d, ll = make(rows, weighted, threads, wkey, lkey)
             resolved = threads if threads > 0 else os.cpu_count()
             if b.number_of_threads != resolved:
                 out.append(dict(what='number_of_threads resolution', got=b.number_of_threads, want=resolved))
@@ -150,17 +153,50 @@ def replay(args):
             # likelihood = sum over rows of weight x simulated per-row value
             for p, pt in enumerate(POINTS):
                 sim = b.simulate({'b1': float(pt[0]), 'b2': float(pt[1])})
-                per_row = sim['log_like'].tolist()
+                per_row = sim[lkey].tolist()
                 n += 1
                 if per_row != [float(v) for v in rec['per_row'][p]]:
                     out.append(dict(what=f'simulate per row T={threads}', got=per_row, want=rec['per_row'][p]))
                 wts = [r['w2'] / 2.0 for r in rows] if weighted else [1.0] * n_rows
-                if weighted and 'weight' in sim and sim['weight'].tolist() != wts:
-                    out.append(dict(what='simulate weight column', got=sim['weight'].tolist(), want=wts))
+                if weighted and sim[wkey].tolist() != wts:
+                    out.append(dict(what='simulate weight column', got=sim[wkey].tolist(), want=wts))
                 tot = sum(w * v for w, v in zip(wts, per_row))
                 f = b.calculate_likelihood([float(pt[0]), float(pt[1])], scaled=False)
                 if not close(f, tot, rel=1e-12):
                     out.append(dict(what=f'likelihood vs sum of weight x simulate T={threads} {key}', got=f, want=tot))
+    # histories: after an estimation with bootstrap (the engine is fed re-samples), the object still reports the
+    # likelihood of the data set
+    if n_rows >= 2:
+        import pandas as pd
+        import biogeme.biogeme as bio
+        import biogeme.database as db
+        import biogeme.expressions as ex
+
+        for weighted in (False, True):
+            key = 'weighted' if weighted else 'plain'
+            if weighted and sum(r['w2'] for r in rows) == 0:
+                continue
+            df = pd.DataFrame({'x': [float(r['x']) for r in rows], 'z': [float(r['z']) for r in rows], 'w': [r['w2'] / 2.0 for r in rows]})
+            d2 = db.Database('c04b', df)
+            b1 = ex.Beta('b1', 0.0, None, None, 0)
+            b2 = ex.Beta('b2', 0.0, None, None, 0)
+            ll2 = -(b1 - ex.Variable('x')) * (b1 - ex.Variable('x')) - (b2 - ex.Variable('z')) * (b2 - ex.Variable('z'))
+            f2 = {'log_like': ll2, 'weight': ex.Variable('w')} if weighted else {'log_like': ll2}
+            bg = bio.BIOGEME(d2, f2, bootstrap_samples=3, generate_html=False, generate_pickle=False, save_iterations=False)
+            bg.modelName = 'c04b'
+            for when in ('before', 'after estimate(run_bootstrap=True)'):
+                for p, pt in enumerate(POINTS):
+                    want = rec['concave'][p][key] / 2.0
+                    got = bg.calculate_likelihood([float(pt[0]), float(pt[1])], scaled=False)
+                    n += 1
+                    if not close(got, want, rel=1e-12):
+                        out.append(dict(what=f'likelihood of the data set {when} ({key})', got=got, want=want, point=pt))
+                    tot = bg.simulate({'b1': float(pt[0]), 'b2': float(pt[1])})['log_like']
+                    wts = [r['w2'] / 2.0 for r in rows] if weighted else [1.0] * n_rows
+                    if not close(sum(w * v for w, v in zip(wts, tot)), want, rel=1e-12):
+                        out.append(dict(what=f'sum of weight x simulate {when} ({key})', got=float(sum(w * v for w, v in zip(wts, tot))), want=want))
+                if when == 'before':
+                    bg.estimate(run_bootstrap=True)
     # splits: the totals of the two parts add up to the total of the whole (all through the real code)
     for k in range(1, n_rows):
         for weighted in (False, True):
@@ -214,8 +250,57 @@ def body(chk: check.Check):
         chk.sample(dict(rows=key, expected_twice_totals_point1=rec['totals'][0]['weighted']))
         for m in val['mismatches']:
             chk.violation('replay:' + m['what'].split(' T=')[0][:50], dict(rows=key, **m), match=dict(kind='value'))
-    # negative controls
+    # (D) whole sessions at the engine boundary (construction, likelihood, derivatives, simulation, estimation with
+    # bootstrap, validation) validated by Engine.tla
+    from vb import enginetrace
+
+    sessions = []
+    for panel in (False, True):
+        for draws in (False, True):
+            for weighted in ((False, True) if not panel else (False,)):
+                st, val = rt.forked(enginetrace.session, panel, draws, weighted, chk.seed % 1000 + 1, timeout=600)
+                if st != 'ok':
+                    chk.violation('engine-session:exception', dict(panel=panel, draws=draws, weighted=weighted, error=val), match=dict(kind='exception'))
+                else:
+                    sessions += val
+    verdicts, eres = enginetrace.validate(sessions)
+    chk.add_tlc(f'Engine: {len(sessions)} recorded engine-object sessions', eres)
+    for tr in sessions:
+        v = verdicts.get(tr['tid'], 'not-consumed')
+        chk.count(tr['tid'], len(tr['events']))
+        if v == 'ok':
+            chk.traces += 1
+        else:
+            chk.violation('engine-session:' + v.split('@')[0], dict(session=tr['tid'], verdict=v, calls=[e['call'] for e in tr['events']][:40]),
+                          match=dict(kind='trace', clause=v.split('@')[0]))
+    if sessions:
+        chk.sample(dict(session=sessions[0]['tid'], calls=[e['call'] for e in sessions[0]['events']]))
     import copy
+
+    ctl = []
+    main = next((t for t in sessions if any(e['call'] == 'setData' for e in t['events'][2:])), None)
+    if main:
+        a = copy.deepcopy(main); a['tid'] = 'ctl/foreign-row'
+        later = [e for e in a['events'] if e['call'] == 'setData'][1]
+        later['rowids'] = later['rowids'][:-1] + [999]
+        ctl.append(a)
+        b_ = copy.deepcopy(main); b_['tid'] = 'ctl/literal-ids-reversed'
+        for e in b_['events']:
+            if e['call'] == 'calculateLikelihoodAndDerivatives':
+                e['literals'] = [1] + e['literals'][1:] if e['literals'] else [1]
+                break
+        ctl.append(b_)
+        c_ = copy.deepcopy(main); c_['tid'] = 'ctl/no-restore'
+        idx = max(i for i, e in enumerate(c_['events']) if e['call'] == 'setData')
+        del c_['events'][idx]
+        ctl.append(c_)
+        d_ = copy.deepcopy(main); d_['tid'] = 'ctl/evaluation-before-expressions'
+        d_['events'] = [e for e in d_['events'] if e['call'] != 'setExpressions']
+        ctl.append(d_)
+        cv, _ = enginetrace.validate(ctl)
+        for t_ in ctl:
+            chk.control(f'corrupted engine session {t_["tid"]}', cv.get(t_['tid'], 'not-consumed') != 'ok', f'verdict={cv.get(t_["tid"])}')
+    # negative controls
 
     base = next(r for r in recs if len(r['rows']) >= 2)
     mut = copy.deepcopy(base)
